@@ -410,6 +410,9 @@ def run(tier):
     rep.floor("value_from_cow_and_metadata instances", nvf, 4)
 
     eager_deferred_agreement(rep, F)
+    # owned and borrowed node types resolve scalars with the same function
+    from . import C08
+    C08.owned_delegates(rep, F, "owned-resolver-delegates")
     # (c) span-blind Eq/Hash of marked nodes
     span_blind(rep, F, "span-blind")
     # Eq/Hash agree on derive for the data types
